@@ -12,6 +12,10 @@ Definition lv := bytes.
 Definition lv_new (value : bytes) : res lv :=
   if len value >? 255 then Err EValue else Ok value.
 
+(* CfdpLv.from_str(string) / from_path(path): cls(string.encode()); the str is given by its
+   UTF-8 octets *)
+Definition lv_from_str (name : bytes) : res lv := lv_new name.
+
 (* CfdpLv.packet_len *)
 Definition lv_packet_len (v : lv) : Z := len v + 1.
 
